@@ -168,6 +168,17 @@ while True:
         maybe_exit()
     if m["method"] == "hold" or closed:
         continue                               # never answered
+    if m["method"] == "initialize" and spec.get("init_reply"):
+        # it ANSWERS the handshake, but not with what a client can accept; then it goes on as its kind says
+        r_ = spec["init_reply"]
+        if r_ == "error":
+            out({"jsonrpc": "2.0", "id": m["id"], "error": {"code": -32603, "message": "initialization failed %s {0}"}})
+        elif r_ == "bad_version":
+            out({"jsonrpc": "2.0", "id": m["id"], "result": {"protocolVersion": "1999-01-01", "capabilities": {},
+                                                            "serverInfo": {"name": "child", "version": "1"}}})
+        else:
+            out({"jsonrpc": "2.0", "id": m["id"], "result": {"capabilities": 7}})
+        continue
     if m["method"] == "initialize" and spec.get("die_on_initialize"):
         os._exit(spec.get("code", 0))          # dies with the handshake in flight
     if m["method"] == "initialize" and spec.get("mute_on_initialize"):
@@ -355,7 +366,7 @@ def host_logging(case):
 
 
 CHILD_KEYS = ("k", "code", "junk", "delay", "linger", "close_after", "term_delay", "stderr", "chatty", "falsy_result",
-              "on_term", "self_exit", "stderr_flood", "batch", "die_on_initialize", "mute_on_initialize", "preamble")
+              "on_term", "self_exit", "stderr_flood", "batch", "die_on_initialize", "mute_on_initialize", "preamble", "init_reply")
 
 
 async def _scenario(case, tmp, obs):
@@ -820,6 +831,8 @@ INIT_SCALED_S = 2.0
 
 
 def answers_initialize(sp):
+    if sp.get("init_reply"):
+        return True          # it answers at once (the handshake fails with an exception, no timeout is involved)
     return sp["behaviour"] in ("well", "ignore_term", "slow_start", "stops_reading", "close_stdout", "exit_at") \
         and not sp.get("die_on_initialize") and not sp.get("mute_on_initialize")
 
